@@ -200,18 +200,20 @@ func uuidsFromDir(dir string) (uuids map[string]bool, err error) {
 
 func isFileAndExist(path string) bool {
 	stat, err := os.Stat(path)
-	if os.IsNotExist(err) {
+	// there is no stat to look at whatever the error is
+	if err != nil {
 		return false
 	}
-	return stat.Mode().IsRegular() && err == nil
+	return stat.Mode().IsRegular()
 }
 
 func isDirAndExist(path string) bool {
 	stat, err := os.Stat(path)
-	if os.IsNotExist(err) {
+	// there is no stat to look at whatever the error is
+	if err != nil {
 		return false
 	}
-	return stat.Mode().IsDir() && err == nil
+	return stat.Mode().IsDir()
 }
 
 func dbgLock(lock string) {
